@@ -98,3 +98,23 @@ ssize_t writev(int fd, const struct iovec* v, int c) {
   if (fd >= 0 && fd == reg_fd) vsim_marker("REGWRITE");
   return syscall(SYS_writev, fd, v, c);
 }
+
+/* POSIX shared-memory objects are kernel state that outlives the processes: inside the simulation their names are prefixed with a token of
+ * the simulator process, which removes them after every history (no state leaks from one history into the next) */
+#include <sys/mman.h>
+static const char* shm_name(const char* name, char* b, size_t n) {
+  const char* t = getenv("VSIM_SHM_TOKEN");
+  if (!t || !name) return name;
+  snprintf(b, n, "/%s%s", t, name[0] == '/' ? name + 1 : name);
+  return b;
+}
+int shm_open(const char* name, int oflag, mode_t mode) {
+  typedef int (*fn_t)(const char*, int, mode_t);
+  static fn_t real_fn; if (!real_fn) real_fn = (fn_t)dlsym(RTLD_NEXT, "shm_open");
+  char b[300]; return real_fn(shm_name(name, b, sizeof b), oflag, mode);
+}
+int shm_unlink(const char* name) {
+  typedef int (*fn_t)(const char*);
+  static fn_t real_fn; if (!real_fn) real_fn = (fn_t)dlsym(RTLD_NEXT, "shm_unlink");
+  char b[300]; return real_fn(shm_name(name, b, sizeof b));
+}
